@@ -20,15 +20,15 @@ ALLOWED_AXIOMS = {'propext', 'Classical.choice', 'Quot.sound'}
 #   ASSERT[op][p.key] = properties for which a 0 is a violation (oracle evaluated on the Go side)
 # --------------------------------------------------------------------------------------
 KEYS = {
-  'gen':   {'pseudo': (['C01'], []), 'caps': (['C17'], []), 'legal': (['C01'], []), 'legaluci': ([], ['C01']),
-            'check': (['C12'], ['C12']), 'capsfilter': (['C17'], [])},
+  'gen':   {'pseudo': (['C01'], []), 'caps': (['C17'], []), 'legal': (['C01', 'C10'], []), 'legaluci': ([], ['C01', 'C10']),
+            'check': (['C12', 'C01', 'C10'], ['C12', 'C01', 'C10']), 'capsfilter': (['C17'], [])},
   'attby': {'attby': (['C12'], ['C12'])},
   'att':   {'att': (['C12'], ['C12'])},
   'magic': {'mask': (['C12'], []), 'shift': (['C12'], []), 'size': (['C12'], []), 'dmask': (['C12'], []), 'dshift': (['C12'], [])},
   'mv':    {'res': (['C02', 'C10'], []), 'dump': (['C02', 'C09', 'C10'], []), 'fen': ([], ['C02']), 'legal': (['C01'], ['C01', 'C10']),
             'fullhash': (['C09'], []), 'str': (['C03'], [])},
   'mvs':   {'res': (['C03'], []), 'dump': (['C03'], [])},
-  'play':  {'res': (['C03'], []), 'dump': (['C03', 'C09'], []), 'fen': ([], ['C03']), 'hist': (['C09', 'C03'], []), 'fullhash': (['C09'], [])},
+  'play':  {'res': (['C03'], []), 'dump': (['C03', 'C09', 'C10'], []), 'fen': ([], ['C03']), 'hist': (['C09', 'C03'], []), 'fullhash': (['C09'], [])},
   'null':  {'null': (['C09', 'C10'], []), 'nullfull': (['C09'], []), 'back': (['C09', 'C10'], []), 'same': (['C09', 'C10'], [])},
   'fen':   {'res': (['C11'], []), 'fen': (['C11'], ['C11']), 'dump': (['C11', 'C09'], [])},
   'perft': {'perft': (['C01'], ['C01'])},
@@ -43,7 +43,7 @@ KEYS = {
   'prep':  {'tokens': (['C07'], [])},
   'hashdiff': {'h1': (['C09'], []), 'h2': (['C09'], [])},
   'ecache': {'out': (['C16'], [])},
-  'dialog': {'out': (['C07', 'C06'], [])},
+  'dialog': {'out': (['C07', 'C06', 'C05'], [])},
   'conc': {'out': (['C06', 'C05'], [])},
   'procuci': {'out': (['C06', 'C07'], [])},
   'perftbin': {'perft': (['C01'], ['C01'])},
@@ -52,11 +52,11 @@ KEYS = {
 }
 ASSERT = {
   'gen':  {'p.c17': ['C17'], 'p.shape': ['C10']},
-  'mv':   {'p.hash': ['C09'], 'p.copy': ['C02'], 'p.reload': ['C09', 'C11', 'C02'], 'p.shape': ['C10', 'C02'], 'p.strback': ['C03']},
-  'play': {'p.hash': ['C09'], 'p.replayable': ['C03']},
+  'mv':   {'p.hash': ['C09'], 'p.copy': ['C02'], 'p.reload': ['C09', 'C11', 'C02'], 'p.shape': ['C10', 'C02'], 'p.strback': ['C03'], 'p.strshape': ['C10', 'C03']},
+  'play': {'p.hash': ['C09'], 'p.replayable': ['C03'], 'p.shape': ['C10']},
   'null': {'p.nullhash': ['C09'], 'p.nullback': ['C09', 'C10']},
   'fen':  {'p.total': ['C11'], 'p.roundtrip': ['C11'], 'p.canon': ['C11']},
-  'eval': {'p.mirror': ['C15'], 'p.bound': ['C15']},
+  'eval': {'p.mirror': ['C15'], 'p.bound': ['C15'], 'p.mirrorpub': ['C15', 'C16']},
   'evalc': {'p.transparent': ['C16']},
   'tt':   {'p.sound': ['C14'], 'p.absent': ['C14'], 'p.aftersave': ['C14']},
   'order': {'p.perm': ['C19'], 'p.sorted': ['C19']},
@@ -65,15 +65,16 @@ ASSERT = {
   'gof':  {'p.total': ['C07'], 'p.faithful': ['C07']},
   'hashdiff': {'p.distinct': ['C09']},
   'ecache': {'p.keyexact': ['C16']},
-  'dialog': {'p.nopanic': ['C07', 'C06'], 'p.answered': ['C06', 'C05']},
+  'dialog': {'p.nopanic': ['C07', 'C06'], 'p.answered': ['C06', 'C05'], 'p.bestlegal': ['C04', 'C06']},
   'timed': {'p.intime': ['C05']},
-  'conc': {'p.live': ['C06', 'C05'], 'p.prompt': ['C06', 'C05'], 'p.whole': ['C06']},
+  'conc': {'p.live': ['C06', 'C05'], 'p.prompt': ['C06', 'C05'], 'p.whole': ['C06'], 'p.bestlegal': ['C04', 'C06']},
   'procuci': {'p.live': ['C06', 'C07'], 'p.prompt': ['C06'], 'p.whole': ['C06']},
+  'deepseq': {'p.terminated': ['C05'], 'p.nopanic': ['C04', 'C05', 'C13'], 'p.bestlegal': ['C04', 'C13'], 'p.pvlegal': ['C04'], 'p.bestfirst': ['C04'], 'p.mateok': ['C13'], 'p.depthok': ['C05']},
   'deep': {'p.terminated': ['C05'], 'p.nopanic': ['C04', 'C05'], 'p.bestlegal': ['C04'], 'p.pvlegal': ['C04'], 'p.bestfirst': ['C04'], 'p.mateok': ['C13'], 'p.depthok': ['C05']},
-  'facts': {'p.terminated': ['C05'], 'p.depthok': ['C05'], 'p.stopnow': ['C05'], 'p.nopanic': ['C04', 'C05']},
+  'facts': {'p.terminated': ['C05'], 'p.depthok': ['C05'], 'p.stopnow': ['C05'], 'p.nopanic': ['C04', 'C05'], 'p.nextnode': ['C05']},
 }
 # operations whose answers are compared even outside the legal-position domain
-ALWAYS = {'fen', 'att', 'magic', 'tt', 'time', 'go', 'gof', 'prep', 'search', 'facts', 'hashdiff', 'ecache', 'dialog', 'timed', 'conc', 'deep', 'procuci'}
+ALWAYS = {'fen', 'att', 'magic', 'tt', 'time', 'go', 'gof', 'prep', 'search', 'facts', 'hashdiff', 'ecache', 'dialog', 'timed', 'conc', 'deep', 'deepseq', 'procuci'}
 
 
 def sh(cmd, cwd=None, env=None, timeout=None, stdin=None):
